@@ -239,6 +239,20 @@ theorem fact_C09_bank_sync_only_for_the_gas_token :
        "NibiruBankKeeper.UndelegateCoinsFromModuleToAccount: findEtherBalanceChangeFromCoins(amt)"] := by decide +kernel
 
 
+/-- who publishes a StateDB in the process-wide pointer (`Keeper.NewStateDB`) and who builds a private one (`statedb.New`): the
+    five state-machine entry points the programs of the model publish for — every one of them adopts a designated StateDB first and
+    clears the pointer when it returns — and the query handlers, which never publish. A query handler or code running inside an
+    execution (a precompile method, say) that called the publishing constructor would hand its StateDB to the next state-machine
+    execution of the process (seeds C01-11, C06-15). -/
+theorem fact_C09_who_publishes_a_statedb :
+    Generated.publishingConstructorCallers =
+      ["x/evm/keeper:Keeper.EthereumTx", "x/evm/keeper:Keeper.convertCoinToEvmBornCoin", "x/evm/keeper:Keeper.convertCoinToEvmBornERC20",
+       "x/evm/keeper:Keeper.createFunTokenFromERC20", "x/evm/keeper:Keeper.deployERC20ForBankCoin"] ∧
+    Generated.privateConstructorCallers =
+      ["x/evm/keeper:Keeper.EstimateGasForEvmCallType", "x/evm/keeper:Keeper.EthCall", "x/evm/keeper:Keeper.NewStateDB",
+       "x/evm/keeper:Keeper.TraceEthTxMsg", "x/evm/keeper:Keeper.TraceTx"] := by
+  constructor <;> decide +kernel
+
 /-- `Keeper.SetAccBalance` — the write-back of a StateDB into its context, reached from `Commit` and from the intermediate flush at
     every precompile entry, in DeliverTx and in queries alike — reads the balance through the wrapper and performs every coin
     movement through the embedded `BaseKeeper` (`bk := k.Bank.BaseKeeper`): no write-back is mirrored into the StateDB that
